@@ -91,8 +91,9 @@ def _coverage_from_trace(lines, prop):
                 cov["not_built_by_fee_class"][e["fee"]] = cov["not_built_by_fee_class"].get(e["fee"], 0) + 1
     else:
         built = [e for e in lines if e["built"]]
-        cov["distinct_nontrivial"] = len({(e["backend"], e["ver"], e["nin"], e["ps"], _shape(e)) for e in built})
-        cov["rule"] = ("honest funding result (swap output at index 0/1/2, 0-2 change outputs before/after, change = amount, 1-3 inputs) "
+        cov["distinct_nontrivial"] = len({(e["backend"], e["ver"], e["nin"], e["inkind"], e["ps"], _shape(e)) for e in built})
+        cov["rule"] = ("honest funding result (swap output at index 0/1/2, 0-2 change outputs before/after, change = amount, 1-3 inputs of kind "
+                       "p2wkh / nested p2sh-p2wkh / legacy p2pkh - the latter two change the txid when signed) "
                        "x back-end (CLN adapter over a fake lightningd socket for two lightningd versions, LND adapter over fake gRPC "
                        "clients, LiquidOnChain over the real ElementsRpcWallet over a fake elementsd) x parameter set; distinct = "
                        "distinct built (back-end, version, inputs, parameter set, shape)")
@@ -101,6 +102,7 @@ def _coverage_from_trace(lines, prop):
             by[e["backend"]] = by.get(e["backend"], 0) + 1
         cov["built_by_backend"] = by
         cov["returned_hex_differs_from_broadcast"] = sum(1 for e in built if not e["hexok"])
+        cov["built_with_scriptsig_inputs"] = sum(1 for e in built if e.get("scriptsig"))
     return cov
 
 
@@ -174,13 +176,21 @@ def run(prop, tier):
             if not sig.startswith(SIG_PREFIX[prop]):
                 raise vp.Fatal("unexpected signature %s" % sig)
             e = lines[ln - 1]
-            case = {k: e[k] for k in e if k in ("kind", "chain", "backend", "side", "outs", "spend", "fee", "nin", "ver")}
+            case = {k: e[k] for k in e if k in ("kind", "chain", "backend", "side", "outs", "spend", "fee", "nin", "ver", "inkind")}
             rp = vp.save_replay(vprop, "tx-%s.json" % vp.sig_id(sig), dict(
                 signature=sig, observation=e, case=case, seed=vp.seed(),
                 how="write `case` as one line to c.ndjson; harness/bin/tx -cases c.ndjson -out /dev/stdout -seed %d -dump "
                     "(prints the observation with the transaction hex); ./check %s re-judges it" % (vp.seed(), vprop)))
             ver.add(sig, rp)
         rc = ver.report()
+        # the design model of the (repaired) code predicts every verdict / selected output / announced index:
+        # a mismatch without a property violation is drift of the code from its description, not a pass
+        drift = stat["v_drift"] + stat["s_drift"] + stat["o_drift"] + stat["v_err_ok"]
+        if rc == 0 and drift:
+            raise vp.Fatal("drift: %d observations differ from the design model of TxShape/SpendTx "
+                           "(validator verdict %d, ok-with-error %d, spend built/outpoint %d, opening built/announced index %d); "
+                           "no property violated - update the specification or the code" %
+                           (drift, stat["v_drift"], stat["v_err_ok"], stat["s_drift"], stat["o_drift"]))
 
         smp = list(lines)
         random.Random(vp.seed()).shuffle(smp)
@@ -191,7 +201,7 @@ def run(prop, tier):
                    design=dict((k, (len(x) if isinstance(x, list) else x)) for k, x in design.items()),
                    trace_stat=stat,
                    spec_lemmas="LemmaDesignSound LemmaDesignPick LemmaHonestValid LemmaHonestSub LemmaTakerOutpoint "
-                               "LemmaSuspectsAreDup LemmaFeePositive LemmaCsvExact LemmaWitness (ASSUME) + InvCase (invariant), TLC",
+                               "LemmaNoSuspects LemmaDupHandled LemmaFeePositive LemmaCsvExact LemmaWitness (ASSUME) + InvCase (invariant), TLC",
                    trace_spec="TxTrace: P_C01V / P_C03 / P_C08 of TxShape.tla / SpendTx.tla on every line",
                    known_findings=sorted(ver.known), new_violations=sorted(ver.new))
         cov.update(_coverage_from_trace(lines, prop))
